@@ -363,21 +363,24 @@ func projectCollection(rt *ResultTypeExpr, view string, seen map[string]*Attribu
 }
 
 func projectRecursive(at *AttributeExpr, vat *NamedAttributeExpr, view string, seen map[string]*AttributeExpr) (*AttributeExpr, error) {
+	if _, ok := at.Type.(*ResultTypeExpr); ok {
+		// A result type attribute is rendered with its own view (explicit or
+		// default), not with the view of the parent: look it up under that view.
+		vatt := vat.Attribute
+		v, ok := vatt.Meta.Last(ViewMetaKey)
+		if !ok {
+			if v, ok = at.Meta.Last(ViewMetaKey); !ok {
+				v = DefaultView
+			}
+		}
+		view = v
+	}
 	if att, ok := seen[hashAttrAndView(at, view)]; ok {
 		return att, nil
 	}
 	at = DupAtt(at)
 
 	if rt, ok := at.Type.(*ResultTypeExpr); ok {
-		vatt := vat.Attribute
-		view, ok := vatt.Meta.Last(ViewMetaKey)
-		if !ok {
-			if v, ok := at.Meta.Last(ViewMetaKey); ok {
-				view = v
-			} else {
-				view = DefaultView
-			}
-		}
 		seen[hashAttrAndView(at, view)] = at
 		pr, err := project(rt, view, seen)
 		if err != nil {
